@@ -93,6 +93,20 @@ static void checkParse(const std::vector<uint8_t>& esc, bool upper) {
       if (r >= RESULT_OK) violation("parseHexEscaped-accepts-invalid", "hex=" + h + " result=" + std::to_string(r) + " got=" + hex(got));
     }
   }
+  // parsing appends: a string parsed in two calls (cut where both pieces are complete escaped strings) gives the same symbols
+  if (ok) for (size_t k = 1; k < esc.size(); k++) {
+    std::vector<uint8_t> a(esc.begin(), esc.begin() + k), b(esc.begin() + k, esc.end()), ea, eb;
+    if (!refUnescape(a, &ea) || !refUnescape(b, &eb)) continue;
+    std::string ha = hex(a), hb = hex(b);
+    MasterSymbolString m;
+    result_t r1 = m.parseHexEscaped(ha), r2 = r1 == RESULT_OK ? m.parseHexEscaped(hb) : r1;
+    st.n["evaluations"]++;
+    st.n["parse_in_two_calls"]++;
+    std::vector<uint8_t> got;
+    for (size_t i = 0; i < m.size(); i++) got.push_back(m[i]);
+    if (r2 != RESULT_OK || got != exp)
+      violation("parseHexEscaped-append", "hex=" + ha + " then " + hb + " result=" + std::to_string(r2) + " got=" + hex(got) + " exp=" + hex(exp));
+  }
   bool nontriv = false;
   for (uint8_t b : esc) if (b == 0xA9 || b == 0xAA) nontriv = true;
   if (nontriv) st.n["distinct_nontrivial"]++;   // enumerated cases are distinct by construction
